@@ -111,6 +111,58 @@ def run(ctx):
             for k in list(sys.modules):
                 if k.split(".")[0] == pkg:
                     del sys.modules[k]
+    # a reorganisation of the paths: what was kept at /pp/model is now kept below it (/pp/model/small), or what was kept below a
+    # directory is now kept at the directory itself. A run of the new code restricted to stages before the path commit is a dry run:
+    # the data directory is left exactly as it was and the old path still loads
+    def tree(d):
+        out = []
+        for root_, dirs_, files_ in os.walk(d):
+            for n_ in dirs_ + files_:
+                p_ = os.path.join(root_, n_)
+                out.append((os.path.relpath(p_, d), os.readlink(p_) if os.path.islink(p_) else ("dir" if os.path.isdir(p_) else "file")))
+        return sorted(out)
+    for di, (old_path, new_path) in enumerate([("/pp/model", "/pp/model/small"), ("/pp/report/2024/q1", "/pp/report")]):
+        for store_kind in ("local", "local_lru"):
+            base = tempfile.mkdtemp(prefix="ddsverif_c15p_")
+            pkg = "c15p_%d_%d_%s" % (os.getpid(), di, store_kind)
+            try:
+                real.reset_process_state()
+                real.set_store(store_kind, os.path.join(base, "si"), os.path.join(base, "sd"))
+                tmpl = ("import dds\nfrom ddsverif_rt import log, term\n\n"
+                        "def m():\n    log('m')\n    return term('m', %r)\n\ndef f0():\n    return term('f0', dds.keep(%r, m))\n")
+                os.makedirs(os.path.join(base, pkg), exist_ok=True)
+                open(os.path.join(base, pkg, "__init__.py"), "w").close()
+                with open(os.path.join(base, pkg, "main.py"), "w") as fh:
+                    fh.write(tmpl % ("v1", old_path))
+                real.load_world(base, pkg + ".main", None, accept=pkg)
+                r1 = real.run({"kind": "eval", "fun": "f0"})
+                with open(os.path.join(base, pkg, "main.py"), "w") as fh:
+                    fh.write(tmpl % ("v2", new_path))
+                real.load_world(base, pkg + ".main", None, accept=pkg)
+                for k in range(0, 5):
+                    before = tree(os.path.join(base, "sd"))
+                    r = real.run({"kind": "eval", "fun": "f0"}, {"stages": ORDER[:k]})
+                    after = tree(os.path.join(base, "sd"))
+                    lv = real.load_path(old_path)
+                    res.evaluations += 1
+                    res.count("directed_reorganised_paths_steps")
+                    res.nontrivial("reorganised paths %d %s %d" % (di, store_kind, k))
+                    bad = None
+                    if r1["error"] is not None:
+                        bad = "the first evaluation failed: %s" % (r1["error"],)
+                    elif before != after:
+                        bad = "the data directory changed: %s" % (sorted(set(before) ^ set(after)),)
+                    elif lv.get("error") is not None or lv.get("value") != "m(v1)":
+                        bad = "the path %s committed earlier now loads as %s" % (old_path, lv)
+                    if bad:
+                        res.violations.append({"what": "a run restricted to the stages %s of a pipeline that now keeps %s where %s was committed is not a dry run: %s" % (
+                            ORDER[:k], new_path, old_path, bad), "input": {"old_path": old_path, "new_path": new_path, "stages": ORDER[:k], "store": store_kind}, "kf": None})
+                        break
+            finally:
+                shutil.rmtree(base, ignore_errors=True)
+                for k_ in list(sys.modules):
+                    if k_.split(".")[0] == pkg:
+                        del sys.modules[k_]
     for wi in range(nworlds):
         # (every second pipeline reads back, with dds.load, paths it has just kept)
         w = progs.gen_world(rng, nfun=rng.randint(2, 6), allow=("call", "ref", "keep", "datafn", "shadow") + (("load",) if wi % 2 else ()))
